@@ -6,7 +6,7 @@
    (theorem 3 is the conditional statement; what is missing there is the periodic analogue of theorem 6). *)
 From Coq Require Import List Arith Reals Lra Lia Bool ZArith QArith Permutation.
 From SplipyModel Require Import Spec.BSpline Spec.DegreeElev Model.Num Model.BasisDef Model.Tensor Model.Obj Model.KnotInsert Model.Solve Model.Interp Model.Order
-  Proofs.TensorLemmas Proofs.TensorApply Proofs.OrderProofs Proofs.LinAlg Proofs.RaiseNested Proofs.OrderRaise Proofs.RaiseAmount Extract.Exec.
+  Proofs.TensorLemmas Proofs.TensorApply Proofs.OrderProofs Proofs.LinAlg Proofs.RaiseNested Proofs.OrderRaise Proofs.RaiseAmount Proofs.ObjEval Proofs.RaiseEndToEnd Extract.Exec.
 Import ListNotations.
 Open Scope R_scope.
 
@@ -43,7 +43,6 @@ Variable l : list R.            (* sorted knot vector *)
 Variables (p a : nat) (tol : R).
 Hypothesis Hs : lsorted l.
 Hypothesis Hp : (1 <= p)%nat.
-Hypothesis Ha : (1 <= a)%nat.
 Hypothesis Hlen : (2 * p <= length l)%nat.
 Hypothesis Hopen : open_knots l p.                      (* first p and last p knots equal: clamped *)
 Hypothesis Htol : 0 < tol.
@@ -57,7 +56,7 @@ Let spans := @knot_spans R NumR tol b true.
 Theorem C05_raise_order_basis :
   @basis_raise_order R NumR tol b a = mkBasis (p + a) (chain l spans a) 0 /\
   lsorted (chain l spans a) /\ Permutation (chain l spans a) (l ++ repeat_list spans a) /\ (forall x, In x spans <-> In x l).
-Proof. split; [exact (raise_order_basis l p a tol Hs Hp Ha Hlen)|exact (raise_order_knots l p a tol Hs Hp Ha Hlen Hopen Htol Hsep Hdom)]. Qed.
+Proof. split; [exact (raise_order_basis l p a tol Hs)|exact (raise_order_knots l p a tol Hs Hp Hlen Hopen Htol Hsep Hdom)]. Qed.
 
 (* 6. the change of basis that raise_order applies in direction d of any tensor-product object (the other
       directions are arbitrary rows of basis values) leaves every coordinate of the evaluation unchanged, at every
@@ -69,7 +68,7 @@ Theorem C05_raise_order_geometry M dim c side t (rows : list (list R)) d cps :
   coord c (@teval R NumR dim (@upd (list R) rows d (Brow side (chain l spans a) (p + a) t))
                   (@apply_dir R NumR dim (map (@length R) rows) d M cps))
   = coord c (@teval R NumR dim rows cps).
-Proof. exact (raise_order_preserves_map l p a tol Hs Hp Ha Hlen Hopen Htol Hsep Hdom M dim c side t rows d cps). Qed.
+Proof. exact (raise_order_preserves_map l p a tol Hs Hp Hlen Hopen Htol Hsep Hdom M dim c side t rows d cps). Qed.
 
 (* 7. lower_order after raise_order: the matrix of the reverse change of basis is a left inverse, so the control
       points come back exactly *)
@@ -77,7 +76,7 @@ Theorem C05_lower_after_raise M M2 : (0 < length l - p)%nat ->
   @order_change_matrix R NumR tol b (@basis_raise_order R NumR tol b a) = Ok M ->
   @order_change_matrix R NumR tol (@basis_raise_order R NumR tol b a) b = Ok M2 ->
   @matmul R NumR M2 M = @ident R NumR (length l - p).
-Proof. exact (lower_after_raise_order l p a tol Hs Hp Ha Hlen Hopen Htol Hsep Hdom M M2). Qed.
+Proof. exact (lower_after_raise_order l p a tol Hs Hp Hlen Hopen Htol Hsep Hdom M M2). Qed.
 End Raise.
 Print Assumptions C05_raise_order_basis.
 Print Assumptions C05_raise_order_geometry.
@@ -96,6 +95,20 @@ Theorem C05_order_change_unique (l L : list R) (p P : nat) (tol : R) :
       B side (@kn R NumR l) (p - 1) i t = sumf (fun r => B side (@kn R NumR L) (P - 1) r t * ment M r i) 0 (length L - P).
 Proof. exact (order_change_is_nested l L p P tol). Qed.
 Print Assumptions C05_order_change_unique.
+
+(* 9. END TO END on the model's own functions (the ones the correspondence run compares with SplineObject.raise_order
+      and SplineObject.evaluate): for every well-formed object whose directions are all non-periodic, clamped, with
+      knots separated by more than the tolerance (any pardim, rational or not), every list of amounts (zeros
+      included) and every parameter tuple of the domain: if raise_order returns an object, evaluating it gives exactly
+      what evaluating the original gives. *)
+Theorem C05_raise_then_evaluate tol (o o' : obj R) (raises : list nat) (ts : list R) :
+  0 < tol -> wf_obj_R tol o -> length raises = length (o_bases o) ->
+  (forall i, (i < length (o_bases o))%nat -> good_dir tol (nth i (o_bases o) dflt_basis)) ->
+  (forall i, (i < length (o_bases o))%nat -> in_dom tol (nth i (o_bases o) dflt_basis) (nth i ts 0)) ->
+  @obj_raise_order R NumR tol o raises = Ok o' ->
+  @obj_eval R NumR tol o' ts = @obj_eval R NumR tol o ts.
+Proof. intros Htol. exact (raise_order_eval tol Htol ts o o' raises). Qed.
+Print Assumptions C05_raise_then_evaluate.
 
 (* the hypotheses of 5-7 are satisfiable: a clamped cubic knot vector with a double interior knot *)
 Example C05_hyps_example :
